@@ -358,8 +358,19 @@ def explore(ctx, thorough):
                 lang = next((l for l in key(got) if key(got)[l] != key(again).get(l)), None)
                 bad["reuse"].append(dict(case, why="the second read() on one reader object differs from the first", language=lang,
                                          first=str(key(got).get(lang))[:200], second=str(key(again).get(lang))[:200]))
-            ids1 = {id(c["obj"]) for cs_ in got.values() for c in cs_} | {id(nd) for cs_ in got.values() for c in cs_ for nd in c["nodes"]}
-            ids2 = {id(c["obj"]) for cs_ in again.values() for c in cs_} | {id(nd) for cs_ in again.values() for c in cs_ for nd in c["nodes"]}
+            from .foldutil import mutable_ids
+
+            def _ids(res):
+                out = set()
+                for cs_ in res.values():
+                    for c in cs_:
+                        out.add(id(c["obj"]))
+                        for holder in [c["obj"]] + list(c["nodes"]):
+                            out.add(id(holder))
+                            for k_ in ("style", "layout_info"):
+                                mutable_ids(getattr(holder, "attrs", {}).get(k_), out)
+                return out
+            ids1, ids2 = _ids(got), _ids(again)
             if ids1 & ids2:
                 bad["reuse"].append(dict(case, why="two reads return caption sets that share caption / node objects"))
     n += roundtrip(ctx, bad)
